@@ -29,6 +29,7 @@ Fixpoint find_num (n : Z) (l : list elem) : option elem :=
 
 (* libwifi_remove_tag(tags, tag_number) -> (new list, return value) *)
 Definition remove_tag (s : tags) (n : Z) : res (tags * Z) :=
+  if t_len s =? 0 then Done (s, 0) else       (* nothing to remove from an empty list *)
   let* o := iter_of s in
   match o with
   | Err _ => Done (s, - EINVAL)
@@ -46,6 +47,7 @@ Definition remove_tag (s : tags) (n : Z) : res (tags * Z) :=
 
 (* libwifi_check_tag(tags, tag_number) *)
 Definition check_tag (s : tags) (n : Z) : res Z :=
+  if t_len s =? 0 then Done 0 else            (* an empty list holds no tag of any number *)
   let* o := iter_of s in
   match o with
   | Err _ => Done (- EINVAL)
